@@ -24,7 +24,9 @@ Routine bodies: `yield d`, yield a non-number (`hang`), `log`, `send`, `spawn r 
 (create if needed — inheriting the creator's random generator — and `play(clock, quant=0)`),
 `setTempo i x`, `setBeats i b`, `pause/resume/stop r` (no-ops on a routine not yet created), `wait/signal c`,
 `seed n` (a new generator object), `draw`, `pull r` (`r.next()` on a sub-stream routine from inside
-the body), `raise` (the body fails: logged by the clock, the routine is Done).
+the body), `raise` (the body fails: logged by the clock, the routine is Done), `defer r c d`
+(`defer(func, d, clock)`: a one-shot function task).  `S.restart` = `main.reset()` + `reset()` of the routine
+objects + a new play of the root.
 Core Lean only (loaded by the drivers of C05 and C10).
 -/
 namespace Sc3Verif.C05
@@ -75,6 +77,7 @@ inductive Act where
   | draw
   | pull (r : Nat)
   | raise
+  | defer (r : Nat) (c : Clk) (d : Rat)
 deriving Repr, DecidableEq, Inhabited
 
 /-- Trace events.  `secs` are logical seconds; `beats` are on the clock that woke the routine. -/
@@ -282,6 +285,12 @@ def runActs (s : S) (x : Ctx) : List Act → S
     | .seed n =>
       runActs ((s.newGen n).setRt x.rid { s.rts x.rid with gen := s.nextGen }) x rest
     | .raise => s.setRt x.rid { s.rts x.rid with state := .done }
+    | .defer r c d =>
+      -- `defer(func, d, clock)` = `clock.sched(d, func)`: a one-shot task (routine slot `r`, whose script is
+      -- what the function does) due `d` beats after the current logical time on clock `c`
+      let s := s.setRt r { s.rts r with created := true, state := .suspended, pc := 0,
+                                        startBeats := s.beatsNow c + d }
+      runActs (s.add c (s.beatsNow c + d) r) x rest
     | .draw =>
       let g := (s.rts x.rid).gen
       runActs ({ s.emit (.draw x.rid g (s.draws g)) with
@@ -299,6 +308,19 @@ def S.exec (s : S) (e : Entry) : S :=
     let s := s.emit (.resume e.rid R.pc e.clk e.beats t)
     runActs s { rid := e.rid, clk := e.clk, beats := e.beats } (R.script.drop R.pc)
   | _ => s
+
+/-- `main.reset()` followed by `reset()` of every existing routine OBJECT and a new play of the root: time,
+    scheduler, clocks and conditions start afresh; the routine objects keep what `Routine.reset` keeps (their
+    random generator, the fact that they exist) and lose position and state. -/
+def S.restart (s : S) (tempi : Nat → Rat) (start : Rat) (c0 : Clk) : S :=
+  let s1 : S :=
+    { s with
+      rts := fun i => if (s.rts i).created then { s.rts i with pc := 0, state := .init, clock := .sys }
+                      else s.rts i
+      tempi := fun i => { tempo := tempi i, beatDur := 1 / tempi i, baseBeats := 0, baseSecs := start }
+      pend := [], mainSecs := start, conds := fun _ => {} }
+  let s2 := s1.setRt 0 { s1.rts 0 with state := .suspended, startBeats := s1.beatsNow c0 }
+  s2.schedNow c0 0
 
 /-- Least element of a list under a strict "better" test (first one wins among equals). -/
 def argmin (better : Entry → Entry → Bool) : List Entry → Option Entry
